@@ -79,7 +79,31 @@ class C01(CheckBase):
     def time_cap(self, tier):
         return 600 if tier == 'quick' else 5400
 
+    def gen_manylines(self, rng, tier):
+        """One large file that is nearly all line ends: list numbers its lines far past 9999 (where the
+        documented 4-column number field overflows), type turns every byte into a newline."""
+        tracks, spt = rng.choice([(40, 10), (80, 10), (40, 18)])
+        n = tracks * spt
+        unit = rng.choice([b'\r', b'\r', b'x\r', b'\r\n'])
+        nlines = rng.choice([9999, 10000, 10001, 12345, 20000])
+        length = min(nlines * len(unit) + rng.choice([0, 0, 1, 5]), (n - 2) * 256, 0x3FFFF)
+        start = rng.choice([2, 3, n - (length + 255) // 256])
+        f = dd.FileEnt(ord('$'), b'MANY', False, 0x1900, 0x8023, length, start)
+        v = dd.Volume(None, b'LINES', 1, 0, n, [f], 0, 0)
+        s = dd.Surface('acorn', tracks, spt, [v], 1, 0, rng.below(65536))
+        body = (unit * (length // len(unit) + 1))[:length]
+        body += bytes(-len(body) % 256)
+        j = s.to_json()
+        for k in range(0, len(body), 256):
+            j['overrides'][str(start + k // 256)] = body[k:k + 256]
+        image = {'ext': 'ssd' if spt == 10 else 'sdd', 'surfaces': [j]}
+        return {'image': image, 'surface': 0, 'volume': 0, 'fault': rng.weighted([(5, None), (1, 'wshort')]), 'seed': rng.below(1 << 30),
+                'maxfiles': 10, 'extract': False, 'fpos': rng.below(1000), 'chunk': 4096,
+                'only_cmd': rng.choice(['list', 'list', 'type'])}
+
     def gen_case(self, rng, tier, index):
+        if rng.chance(0.03):
+            return self.gen_manylines(rng, tier)
         image = dfswork.gen_image(rng, kind=rng.weighted([(6, 'single'), (3, 'interleaved'), (2, 'two-sided')]))
         si = rng.below(len(image['surfaces']))
         s = dd.Surface.from_json(image['surfaces'][si])
@@ -138,6 +162,7 @@ class C01(CheckBase):
         for f in files:
             body = s.body(rendered, vol, f)
             cmdk = rng.choice(['type-binary', 'type-binary', 'type', 'list', 'dump'])
+            cmdk = case.get('only_cmd') or cmdk
             form = rng.choice(['full', 'dir', 'bare', 'ctx'])
             if form == 'bare' and f.name.startswith(b'-'):
                 form = 'dir'      # a bare argument starting with '-' is an option by ordinary command-line rules
